@@ -252,6 +252,27 @@ func (fx *FnCtx) checkPost(st *State, results []*Val) {
 			res = &Val{K: KTuple, T: sig.Results(), Fs: results}
 		}
 		bindResults(env, sig, res)
+		// ghost code: updates of ghost variables performed when the function returns
+		for _, gs := range fx.con.GhostSets {
+			gv := fx.eng.CS.GVars[gs.Var]
+			if gv == nil {
+				fx.unsupported("ghost-set: unknown ghost var " + gs.Var)
+				continue
+			}
+			cond := "true"
+			if gs.Cond != nil {
+				cond = env.evalBool(gs.Cond)
+			}
+			cur := st.heapGet("G|"+gv.Name, gv.Sort)
+			var nv string
+			val := env.eval(gs.Val)
+			if gs.Idx != nil {
+				nv = tSto(cur, env.evalInt(gs.Idx), val.S)
+			} else {
+				nv = val.S
+			}
+			st.heapSet("G|"+gv.Name, gv.Sort, tIte(cond, nv, cur))
+		}
 		for _, e := range fx.con.Ensures {
 			g := env.evalBool(e.E)
 			fx.oblige(st, fx.oname("post", strings.Trim(e.Tag(), "[]")), "post", e, g)
